@@ -288,6 +288,100 @@ theorem C17_bounded_session (calls : List (List FragMsg)) (st : Pending) (hinv :
     rw [Nat.succ_mul]
     omega
 
+/-! ### the transcript does not depend on the path MTU -/
+
+theorem header_length (typ total seq off len : Nat) : (header typ total seq off len).length = 12 := by
+  simp [header, be3, be2]
+
+/-- what `writeHandshakeRecord` puts on the wire for the message `header ++ body` is the
+encoding of `txMsgs`: the whole message in one record when it fits, otherwise one record per
+fragment, each carrying the message's own type, length and `message_seq` (read back from the
+marshalled header bytes) and its offset / length. -/
+theorem C17_wire_is_txMsgs (typ seq : Nat) (htyp : typ < 256) (hseq : seq < 65536) (body : Bytes) (mp : Nat) (hmp : 12 < mp) :
+    writeHandshake (header typ body.length seq 0 body.length ++ body) mp =
+      if 12 + body.length ≤ mp then .single (header typ body.length seq 0 body.length ++ body)
+      else .frags ((txMsgs typ seq body mp).map FragMsg.encode) := by
+  have hl := header_length typ body.length seq 0 body.length
+  unfold writeHandshake
+  simp only [List.length_append, hl]
+  by_cases h1 : 12 + body.length ≤ mp
+  · simp [h1]
+  · have h2 : ¬ 12 + body.length ≤ 12 := by omega
+    have h3 : ¬ mp ≤ 12 := by omega
+    simp only [h1, h2, h3, if_false]
+    have ht : (header typ body.length seq 0 body.length ++ body).take 12 = header typ body.length seq 0 body.length := by
+      rw [List.take_append_of_le_length (by omega), List.take_of_length_le (by omega)]
+    have hd : (header typ body.length seq 0 body.length ++ body).drop 12 = body := by
+      rw [List.drop_append_of_le_length (by omega), List.drop_of_length_le (by omega)]; rfl
+    rw [ht, hd]
+    have e0 : ((header typ body.length seq 0 body.length).getD 0 0).toNat = typ := by
+      simp [header, UInt8.toNat_ofNat']; omega
+    have e45 : ((header typ body.length seq 0 body.length).getD 4 0).toNat <<< 8 |||
+        ((header typ body.length seq 0 body.length).getD 5 0).toNat = seq := by
+      simp only [header, be3, be2, List.cons_append, List.nil_append, List.getD_eq_getElem?_getD]
+      simp only [List.getElem?_cons_succ, List.getElem?_cons_zero, Option.getD_some, UInt8.toNat_ofNat']
+      rw [← Nat.shiftLeft_add_eq_or_of_lt (by omega)]
+      simp only [Nat.shiftRight_eq_div_pow, Nat.shiftLeft_eq]
+      omega
+    rw [e0, e45]
+    simp only [txMsgs, h1, if_false, List.map_map]
+    congr 1
+
+/-- **The bytes both transcripts hash are the same for every path MTU.** The sender hashes
+the unfragmented encoding `data` before it splits the message (`writeHandshakeT`, pinned by
+`C17_transcript_facts`); whatever record payload size `mp > 12` the sender's PMTU gives —
+one record, or any number of fragments within the receiver's iteration cap — the message
+`readHandshake` delivers (and hashes) is exactly `data`: the header normalised to
+fragment_offset 0 and fragment_length = length, followed by the body. So the Finished values
+are computed over the unfragmented form on both sides, independently of either PMTU. -/
+theorem C17_transcript_pmtu_independent (typ seq : Nat) (body : Bytes) (mp : Nat) (hmp : 12 < mp)
+    (hmax : body.length ≤ Facts.dtlcp.maxHandshake)
+    (hcnt : (fragmentize body (mp - 12)).length ≤ Facts.dtlcp.maxHandshakeFragments) :
+    (writeHandshakeT (header typ body.length seq 0 body.length ++ body) mp).1
+        = header typ body.length seq 0 body.length ++ body ∧
+    ∃ st' rest, recvHere [] (txMsgs typ seq body mp)
+        = (st', .msg (header typ body.length seq 0 body.length ++ body), rest) := by
+  refine ⟨rfl, ?_⟩
+  unfold txMsgs
+  by_cases h1 : 12 + body.length ≤ mp
+  · simp only [h1, if_true]
+    have hf : Facts.dtlcp.maxHandshakeFragments = 255 + 1 := by decide
+    unfold recvHere
+    rw [hf]
+    unfold recv
+    have hck : check Facts.dtlcp.maxHandshake body.length 0 body.length = none := by
+      unfold check
+      have a : ¬ body.length > Facts.dtlcp.maxHandshake := by omega
+      have b : ¬ 0 + body.length > body.length := by omega
+      simp [a, b]
+    simp only [hck]
+    rw [apply_whole _ _ _ (by simp)]
+    exact ⟨_, _, rfl⟩
+  · simp only [h1, if_false]
+    exact C17_sender_receiver_conn typ seq body (mp - 12) (by omega) (by omega) hmax hcnt
+
+/-- two endpoints (or two runs) with different PMTUs hash the same bytes for the same message -/
+theorem C17_transcript_same_for_all_pmtu (typ seq : Nat) (body : Bytes) (mp1 mp2 : Nat) (h1 : 12 < mp1) (h2 : 12 < mp2)
+    (hmax : body.length ≤ Facts.dtlcp.maxHandshake)
+    (hc1 : (fragmentize body (mp1 - 12)).length ≤ Facts.dtlcp.maxHandshakeFragments)
+    (hc2 : (fragmentize body (mp2 - 12)).length ≤ Facts.dtlcp.maxHandshakeFragments) :
+    ∃ d, (∃ st r, recvHere [] (txMsgs typ seq body mp1) = (st, .msg d, r)) ∧
+         (∃ st r, recvHere [] (txMsgs typ seq body mp2) = (st, .msg d, r)) ∧
+         d = (writeHandshakeT (header typ body.length seq 0 body.length ++ body) mp1).1 ∧
+         d = (writeHandshakeT (header typ body.length seq 0 body.length ++ body) mp2).1 :=
+  ⟨_, (C17_transcript_pmtu_independent typ seq body mp1 h1 hmax hc1).2,
+      (C17_transcript_pmtu_independent typ seq body mp2 h2 hmax hc2).2, rfl, rfl⟩
+
+/-- The source facts behind `writeHandshakeT` and the receiver's hashing: the sender calls
+`transcript.Write(data)` on the marshalled message before `maxPayloadSizeForWrite` is even
+consulted and never writes to the transcript inside the fragment loop; the receiver calls
+`transcript.Write(data)` once, after the header was rebuilt and the message unmarshalled. -/
+theorem C17_transcript_facts :
+    Facts.dtlcp.txTranscriptWrites = ["transcript.Write(data)"] ∧ Facts.dtlcp.txTranscriptBeforeSplit = true ∧
+    Facts.dtlcp.txDataIsMarshal = true ∧ Facts.dtlcp.txLoopBuildsFreshHeader = true ∧
+    Facts.dtlcp.rxTranscriptWrites = ["transcript.Write(data)"] ∧ Facts.dtlcp.rxTranscriptAfterRebuild = true := by
+  decide
+
 /-! ### non-vacuity and witnesses -/
 
 private def b (l : List Nat) : Bytes := l.map UInt8.ofNat
